@@ -25,7 +25,12 @@ from oracle import sets as O
 from . import shapes as SH
 
 TAU = 2e-4       # band between 'edge interior' and 'corner zone' (edge parameter); margin for Boolean operand selection
-UNIT_TOL = 1e-6
+UNIT_TOL = 1e-6  # float replays only: symbolically the equalities (nu.nu == 1, nu.e == 0, nu*r == p-c) are claimed EXACTLY
+                 # (stronger, and an exact equality is far cheaper for the solver than a two-sided tolerance)
+
+
+def _tol(L):
+    return 0 if L.symbolic else UNIT_TOL
 
 META = dict(
     level="model_checking",
@@ -224,8 +229,8 @@ def sampled_case(expr, method, n, k, orient=None, side=None, link_only=False, de
             return
         for i, (p, nu) in enumerate(zip(pts, nrm)):
             prm = rows[min(i // n, len(rows) - 1)] if k else {}
-            yield "unit[row%d]" % i, N.unit(nu, L, UNIT_TOL)
-            for cn, f in N.claims(sh.oset, p, nu, prm, L, TAU, UNIT_TOL):
+            yield "unit[row%d]" % i, N.unit(nu, L, _tol(L))
+            for cn, f in N.claims(sh.oset, p, nu, prm, L, TAU, _tol(L)):
                 yield "outward:%s[row%d]" % (cn, i), f
 
     opts = dict(max_paths=64, max_decisions=64, max_forks_per_site=8)
@@ -280,8 +285,8 @@ def generic_case(expr, leaf_idx, piece, k=0, orient=None, dep=None, **kw):
             return
         for i, (p, nu, prm) in enumerate(zip(o["p"], nrm, o["prms"])):
             yield "generic_point_on_piece[row%d]" % i, N.on_some_piece(o["leaf"].oset, p, prm, L)
-            yield "unit[row%d]" % i, N.unit(nu, L, UNIT_TOL)
-            for cn, f in N.claims(sh.oset, p, nu, prm, L, TAU, UNIT_TOL):
+            yield "unit[row%d]" % i, N.unit(nu, L, _tol(L))
+            for cn, f in N.claims(sh.oset, p, nu, prm, L, TAU, _tol(L)):
                 yield "outward:%s[row%d]" % (cn, i), f
 
     opts = dict(max_paths=64, max_decisions=64, max_forks_per_site=8, split=("abs", "where"))
